@@ -262,6 +262,11 @@ def toStrDG : DataG T → Option Str
   | .ref p => Q.asStr p.inner
   | _ => none
 
+def toPatDG : DataG T → Option Str
+  | .value v => (Q.asStr v).map unDouble
+  | .ref p => Q.asStr p.inner
+  | _ => none
+
 def presentOfG : DataG T → Bool
   | .ref _ => true
   | .refs ps => !ps.isEmpty
@@ -321,11 +326,11 @@ def TestFunction.processG : TestFunction → DataG T → DataG T
   | .count a, d => countFnG Q (a.processG d)
   | .value a, d => valueFnG (a.processG d)
   | .match a b, d =>
-      match toStrDG Q (a.processG d), toStrDG Q (b.processG d) with
+      match toStrDG Q (a.processG d), toPatDG Q (b.processG d) with
       | some s, some p => dboolG Q (E.regexFn s p false)
       | _, _ => dboolG Q false
   | .search a b, d =>
-      match toStrDG Q (a.processG d), toStrDG Q (b.processG d) with
+      match toStrDG Q (a.processG d), toPatDG Q (b.processG d) with
       | some s, some p => dboolG Q (E.regexFn s p true)
       | _, _ => dboolG Q false
   | .custom name args, d => .value (Q.extensionCustom name (FnArg.valuesG args d))
